@@ -373,7 +373,7 @@ func TestC14(t *testing.T) {
 		"file<->file, dir<->file, dir<->empty dir, copy subtree, nested); Diff(a,b), ApplyChange(a, Diff(a,b)) on the real code; " +
 		"non-trivial = at least 2 changes one of which is nested (path length >= 2); distinct by (a, b)")
 	cs := vh.NewCases(e, "From V Require Import lib.C11_DagPb model.M_C14.\nOpen Scope Z_scope.", "case", "check_case", 250)
-	n := e.Pick(1500, 30000)
+	n := e.Pick(1500, 15000)
 	cp := corpus()
 	for i := 0; i < n; i++ {
 		var p pair
